@@ -274,7 +274,7 @@ class DataclassAdapter(GenericCallAdapter):
             return getattr(value, pos_or_name)
         else:
             args = [field for field in fields(value) if field.init]
-            return args[pos_or_name]
+            return getattr(value, args[pos_or_name].name)
 
 
 try:
@@ -322,8 +322,11 @@ else:
             return ([], kwargs)
 
         def argument(self, value, pos_or_name):
-            assert isinstance(pos_or_name, str)
-            return getattr(value, pos_or_name)
+            if isinstance(pos_or_name, str):
+                return getattr(value, pos_or_name)
+            else:
+                args = [field for field in attrs.fields(type(value)) if field.init]
+                return getattr(value, args[pos_or_name].name)
 
 
 try:
@@ -423,8 +426,10 @@ class NamedTupleAdapter(GenericCallAdapter):
         )
 
     def argument(self, value, pos_or_name):
-        assert isinstance(pos_or_name, str)
-        return getattr(value, pos_or_name)
+        if isinstance(pos_or_name, str):
+            return getattr(value, pos_or_name)
+        else:
+            return value[pos_or_name]
 
 
 class DefaultDictAdapter(GenericCallAdapter):
